@@ -23,7 +23,7 @@ CHECKS = {
 }
 
 # properties whose checks are registered (theorems proved, check green on the unchanged tree)
-READY = {'C16', 'C12'}
+READY = {'C16', 'C12', 'C06', 'C13', 'C14', 'C20'}
 
 CHECKS['C12'] = (
     'Lean 4 theorems: round trip parse(encodeOps ops) = annotate ops for every well-formed operation sequence (any length, nesting depth, '
@@ -35,6 +35,41 @@ CHECKS['C12'] = (
     'Hand-modelled: the parse_expr loop, read_blob and the closure shapes (recognised by introspection; unrecognised shapes are refused and break the tie theorem). '
     'DW_OP_lo_user/hi_user are range markers, excluded from the bijection as the standard defines them. CPython recursion limit (~300 nested blocks) is outside the model.',
     'DESIGN.md §6 C12')
+
+CHECKS['C06'] = (
+    'Lean 4 theorems: one-step simulation of the dict-based CFI interpreter by the DWARF §6.4 reference machine for all 28 opcodes and its lift to whole '
+    'CIE/FDE tables (induction over the instruction list), instruction-stream round trip for every opcode; regenerated DW_CFA/DW_EH tables and header '
+    'structs kernel-checked against the Spec; correspondence of _parse_entries/_decode_CFI_table with the model on spec-encoded and damaged sections',
+    'Proof: the decoded unwind table equals the table DWARF §6.4 defines (code/data alignment, restore to CIE rules, remember/restore, final row) for every '
+    'instruction sequence on which the standard machine is defined; instruction streams are split into exactly the encoded opcodes/operands.',
+    'entries_exact (section-level entry list: kinds, headers, augmentation, pcrel pointers, FDE->CIE links) is proved only in parts (zero terminator, cache hit, '
+    'CIE pointer arithmetic) and otherwise covered by correspondence; reg_order/dict order correspondence-only. CIE v4 address_size != container size and '
+    'DW_CFA_set_loc under a non-absptr .eh_frame encoding are outside WF (the latter recorded as a known finding).',
+    'DESIGN.md §6 C06')
+CHECKS['C13'] = (
+    'Lean 4 theorems: aranges entries exact and sorted; bisect-based lookup = "the range containing the address" under the no-shadow hypothesis (with a '
+    'proved counterexample showing the hypothesis is needed); name tables exact; refinement: every get_CU_containing/get_CU_at answer equals the stateless '
+    'answer in every cache state satisfying an invariant every lookup preserves; correspondence incl. exhaustive offsets of multi-unit sections',
+    'Proof: lookup tables resolve to the unit whose encoded range/extent contains the query, for all queries and all cache states; bisect_right is modelled '
+    'as CPython\'s loop and proved equal to the count of keys <= x on sorted lists.',
+    'Unit-header instantiation proved for DWARF versions 2-4 (v5 headers by correspondence); first-occurrence key order for duplicate names not proved; '
+    'DIE decoding behind get_DIE_from_lut_entry is C04\'s subject (observed through offset and unit only). Zero-length / shadowed tuples are the claim\'s boundary.',
+    'DESIGN.md §6 C13')
+CHECKS['C14'] = (
+    'Lean 4 theorems: note-walk round trip for any number of notes, any name/descriptor size residue, all seven descriptor grammars, both classes/orders, '
+    'core vs not, closed over the regenerated bundles via tie theorems; section view = segment view; stabs exact; correspondence on spec-encoded, raw and '
+    'shipped-binary extents',
+    'Proof: iterating a note extent yields exactly the encoded notes with offsets and padded sizes, consuming the extent; known descriptors decode to their fields.',
+    'Correspondence-only: ELF container glue, malformed extents, inputs outside Note.wf (name without NUL, x86 feature property with datasz != 4, descriptor length not matching its grammar, non-zero padding).',
+    'DESIGN.md §6 C14')
+CHECKS['C20'] = (
+    'Lean 4 theorems: attribute-section round trip (any number of subsections / sub-subsections / attributes, padded ULEB128, both byte orders and '
+    'architectures); prel31 expansion (T3-translated from the Python) = sign extension from bit 30 for all words; exidx entry classification = EHABI '
+    'reference decoder on every image; byte-code disassembly = EHABI table 4 for every array; regenerated decoder ring / tag dispatch tables checked '
+    'against the Spec; correspondence incl. exhaustive short byte-code arrays',
+    'Proof: build attributes and ARM unwind entries decode to exactly what is encoded, for all inputs; truncated byte-code operands are exactly IndexError.',
+    'Correspondence-only: model vs code on malformed input, ELFFile section lookup glue, order-independence of the attribute API. Table references wrapping to >= 2^63 are excluded by hypothesis.',
+    'DESIGN.md §6 C20')
 
 NOT_YET = {
 }
